@@ -211,13 +211,13 @@ func runConfigs(c *rules.Check, repo, tier string, overlay map[string][]byte) (r
 	}()
 	rep = oblig.NewReport(c.ID, tier)
 	cfgs := []load.Config{{Dir: repo, Overlay: overlay, Light: c.Light}}
-	if tier == "thorough" {
-		for _, x := range c.Configs {
-			x.Dir = repo
-			x.Overlay = overlay
-			x.Light = c.Light
-			cfgs = append(cfgs, x)
-		}
+	// the other build configurations (e.g. -tags unsafe) are analysed in both tiers: they cost a few seconds and a
+	// change confined to a build-tagged file is invisible otherwise
+	for _, x := range c.Configs {
+		x.Dir = repo
+		x.Overlay = overlay
+		x.Light = c.Light
+		cfgs = append(cfgs, x)
 	}
 	var cfgNames []string
 	for i, cfg := range cfgs {
